@@ -533,6 +533,49 @@ pub fn run(ctx: &Ctx) -> Result<(), String> {
         return Err(e);
     }
 
+    // many distinct client addresses in one publish window (per-client recorder): N clients, each from
+    // its own loopback address, one request each; then the hand-off; the snapshots in the queue
+    // (capacity 2, as for one worker) together hold every address and every event
+    {
+        let ns: Vec<usize> = ctx.tier.pick(vec![1023, 1025, 2049, 3073], vec![1, 1023, 1024, 1025, 2047, 2048, 2049, 3073, 5000]);
+        for n in ns {
+            let r = crate::util::on_named_thread("worker-0", move || -> Result<Option<String>, String> {
+                let queue = Arc::new(StatsQueue::new(2));
+                let cfg = SrvCfg { batch_size: 64, client_stats: true, ..Default::default() };
+                let mut srv = Srv::new_with_queue(&cfg, queue.clone())?;
+                let mut socks = vec![];
+                for i in 0..n {
+                    let ip = format!("127.{}.{}.{}:0", 1 + i / 65536, (i / 256) % 256, i % 256);
+                    let s = std::net::UdpSocket::bind(&ip).map_err(|e| format!("bind {}: {}", ip, e))?;
+                    let req = rtref::responder::std_request(rtref::Version::Classic, &crate::inproc::nonce(0xadd_0000 + i as u64, 64));
+                    s.send_to(&req, srv.addr).map_err(|e| e.to_string())?;
+                    socks.push(s);
+                    if i % 48 == 47 {
+                        srv.settle()?;
+                    }
+                }
+                srv.settle()?;
+                srv.handoff_stats()?;
+                let mut addrs = std::collections::BTreeSet::new();
+                let (mut reqs, mut resps) = (0u64, 0u64);
+                while let Some(snap) = queue.pop() {
+                    for c in snap {
+                        addrs.insert(c.ip_addr);
+                        reqs += c.classic_requests as u64;
+                        resps += c.classic_responses_sent as u64;
+                    }
+                }
+                if addrs.len() != n || reqs != n as u64 || resps != n as u64 {
+                    return Ok(Some(format!("{} clients from distinct addresses sent one request each; the published snapshots hold {} addresses, {} requests, {} responses", n, addrs.len(), reqs, resps)));
+                }
+                Ok(None)
+            })?;
+            wiring_n.fetch_add(1, Relaxed);
+            if let Some(m) = r {
+                ctx.violation("stats-differ-from-traffic", "server-wiring", "per-client/many-addresses", json!({"kind":"many-addresses","clients":n,"message":m}));
+            }
+        }
+    }
     // part 4: replies that cannot be sent. The real Responder is driven through its public API with
     // return addresses the socket can and cannot send to; what the recorder reports is compared
     // with the datagrams that actually arrived.
